@@ -193,6 +193,7 @@ pub fn build(dc: &DefectCase, defects: &[Defect]) -> Case {
         plan.spec.sep = (dc.variant >> 6) + if dc.variant & 0x08 != 0 { 2 } else { 0 };
     }
     plan.cfg.fold = true;
+    plan.cfg.s3 = dc.variant & 0x80 != 0 && !has(PathAboveRoot); // (S3 mode keeps ".." segments: no defect there)
     plan.cfg.reqs = Reqs { always: vec!["X-Must".into()], if_in_request: vec!["X-Maybe".into()], prefixes: vec!["X-Pre-".into()], route: dc.variant % 5 };
     plan.logical.headers.push(("x-must".into(), vec![B::from("1")]));
     // (required to be signed IF carried; carried with an empty value in some variants)
@@ -210,16 +211,19 @@ pub fn build(dc: &DefectCase, defects: &[Defect]) -> Case {
     let mut base = plan.base();
     // --- rank 1 / 4 : request target and body
     if has(PathBadEscape) {
-        base.uri = base.uri.replacen("/p", "/p%zz", 1);
+        let bad = ["%zz", "%+1", "%-1", "%1", "%g0", "%0g", "%+f", "%%", "%0x", "%x0"][(dc.variant as usize / 3) % 10];
+        base.uri = base.uri.replacen("/p", &format!("/p{}", bad), 1);
     }
     if has(PathAboveRoot) {
         base.uri = base.uri.replacen("/p", "/../p", 1);
     }
     if has(QueryBadEscape) {
-        base.uri = format!("{}&bad=%4", base.uri);
+        let bad = ["%4", "%+1", "%-1", "%zz", "%+f", "%g0", "%", "%0x"][(dc.variant as usize / 5) % 8];
+        base.uri = format!("{}&bad={}", base.uri, bad);
     }
     if has(BodyBadEscape) {
-        base.body = B(b"f=%G1".to_vec());
+        let bad = ["%G1", "%+1", "%-1", "%+f", "%1", "%"][(dc.variant as usize / 7) % 6];
+        base.body = B(format!("f={}", bad).into_bytes());
     }
     if has(BodyUndecodable) {
         base.body = B(b"f=\xff\xfe".to_vec());
@@ -365,6 +369,9 @@ pub fn build(dc: &DefectCase, defects: &[Defect]) -> Case {
                     let other = ["Basic dXNlcjpwYXNz", "AWS3 AWSAccessKeyId=AKID,Algorithm=HmacSHA256,Signature=abc=", "Bearer token=abc", "AWS4-HMAC-SHA512 Credential=x"][(dc.variant >> 6) as usize % 4];
                     let at = req.headers.iter().position(|(n, _)| n.eq_ignore_ascii_case("authorization")).unwrap_or(0);
                     req.headers.insert(at, ("Authorization".into(), B::from(other)));
+                } else if dc.variant & 0x0C == 0x08 {
+                    // the right token, but a TAB instead of the space that ends it (rule 6a: up to the first space)
+                    edit_auth(&mut req, &|v| v.replacen("AWS4-HMAC-SHA256 ", "AWS4-HMAC-SHA256\t", 1));
                 } else {
                     edit_auth(&mut req, &|v| v.replacen("AWS4-HMAC-SHA256", "AWS4-HMAC-SHA512", 1));
                 }
